@@ -195,6 +195,9 @@ async fn run_history(c: &Case, shard_tag: u32) -> Verdict {
     let mut closed_last: Option<Instant> = None;
     let mut client_got: Vec<(SocketAddr, SocketAddr, Vec<u8>)> = vec![];
     let mut expected_replies: Vec<(SocketAddr, SocketAddr, Vec<u8>)> = vec![];
+    // replies whose delivery the model cannot decide (a port-53 flow whose query count is
+    // uncertain because a query was sent around the expiry instant): they may arrive, need not
+    let mut optional_replies: std::collections::HashSet<Vec<u8>> = Default::default();
 
     let send_record = |client: &mut Client, src: SocketAddr, dst: SocketAddr, payload: &[u8]| -> Result<(), String> {
         let rec = udpmux::encode_in(&udpmux::Datagram { source: src, destination: dst, app_name: "app".into(), payload: payload.to_vec() });
@@ -286,13 +289,17 @@ async fn run_history(c: &Case, shard_tag: u32) -> Verdict {
                     continue;
                 }
                 let k = 1 + (*k as usize % 3);
-                for _ in 0..k {
+                for nth in 0..k {
                     if i == 3 && dns_is_53 && f.pending_dns == 0 {
                         break;
                     }
                     seq += 1;
                     let payload = format!("r{}-{}", i, seq).into_bytes();
                     servers[i].sock.send_to(&payload, peer).await.map_err(|e| herr(e.to_string()))?;
+                    if i == 3 && dns_is_53 && f.dns_fuzzy && nth > 0 {
+                        // the real flow may have had one query fewer pending than the model
+                        optional_replies.insert(payload.clone());
+                    }
                     expected_replies.push((f.dst, f.src, payload));
                     f.replies += 1;
                     f.last = Some(Instant::now());
@@ -442,6 +449,9 @@ async fn run_history(c: &Case, shard_tag: u32) -> Verdict {
         client_got.push(d);
     }
     for (s, d, p) in &expected_replies {
+        if optional_replies.contains(p) {
+            continue;
+        }
         ensure!(
             client_got.iter().any(|(a, b, q)| a == s && b == d && q == p),
             "udp:reply-lost",
